@@ -2,6 +2,8 @@
   C20 — a failing signer never yields a usable or half-signed message; verifier errors are
   propagated; no encoder emits an empty signature.  Signers / verifiers are oracle parameters
   (any function returning ok sig | ok [] | err e), so the statements hold for every fault.
+  A signer that answers `ok []` (no error, no bytes) makes every Sign return `ErrEmptySignature`
+  with nothing stored (`*_empty_signer_fails`, `*_ok_nonempty`; /repo 9ac6635).
 -/
 import CoseModel.Messages
 import CoseModel.HashEnvelope
@@ -34,7 +36,7 @@ theorem sign1_fault (m : Sign1Msg) (ext : Option Bytes) (s : Signer) (e : Err)
     returned for the bytes it was handed -/
 theorem sign1_ok_stores_signer_output (m : Sign1Msg) (ext : Option Bytes) (s : Signer)
     (h : (Sign1.sign m ext s).out = .ok ()) :
-    ∃ tbs sig, (Sign1.sign m ext s).calls = [tbs] ∧ s.sign tbs = .ok sig ∧
+    ∃ tbs sig, (Sign1.sign m ext s).calls = [tbs] ∧ s.sign tbs = .ok sig ∧ sig ≠ [] ∧
       (Sign1.sign m ext s).state.sig = some sig := by
   unfold Sign1.sign at h ⊢
   by_cases hp : m.payload.isNone
@@ -49,7 +51,12 @@ theorem sign1_ok_stores_signer_output (m : Sign1Msg) (ext : Option Bytes) (s : S
         | ok tbs =>
           simp only [ht] at h ⊢
           cases hsg : s.sign tbs with
-          | ok sig => exact ⟨tbs, sig, by simp, hsg, by simp⟩
+          | ok sig =>
+            simp only [hsg] at h ⊢
+            by_cases hz : sig.length = 0
+            · simp [hz] at h
+            · simp only [hz, if_false]
+              exact ⟨tbs, sig, rfl, hsg, fun hn => hz (by rw [hn]; rfl), rfl⟩
           | err e' => simp [hsg] at h
           | panic => simp [hsg] at h
           | unmodelled => simp [hsg] at h
@@ -83,13 +90,79 @@ theorem sign1_empty_then_unencodable (tagged : Bool) (m : Sign1Msg) (ext : Optio
     | ok p' =>
       simp only []
       cases Sign1.toBeSigned { m with h := { m.h with p := p' } } ext with
-      | ok tbs => simp [hs tbs, blen]
+      | ok tbs => simpa [hs tbs] using hm
       | err e' => simpa using hm
       | panic => simpa using hm
       | unmodelled => simpa using hm
     | err e' => simpa using hm
     | panic => simpa using hm
     | unmodelled => simpa using hm
+
+/-- (repair 9ac6635) Sign1 with a signer that "succeeds" with no signature bytes: the call never
+    reports success, stores nothing, and — whenever the signer was reached — returns
+    `ErrEmptySignature` -/
+theorem sign1_empty_signer_fails (m : Sign1Msg) (ext : Option Bytes) (s : Signer)
+    (hs : ∀ tbs, s.sign tbs = .ok []) :
+    (Sign1.sign m ext s).out ≠ .ok () ∧ (Sign1.sign m ext s).state.sig = m.sig ∧
+    ((Sign1.sign m ext s).calls ≠ [] → (Sign1.sign m ext s).out = .err .emptySig) := by
+  unfold Sign1.sign
+  by_cases hp : m.payload.isNone
+  · simp [hp]
+  · by_cases hg : blen m.sig > 0
+    · simp [hp, hg]
+    · simp only [hp, hg, if_false, Bool.false_eq_true]
+      cases ensureSigningAlgorithm m.h.rawP m.h.p s.alg ext with
+      | ok p' =>
+        simp only []
+        cases Sign1.toBeSigned { m with h := { m.h with p := p' } } ext with
+        | ok tbs => simp [hs tbs]
+        | err e' => simp
+        | panic => simp
+        | unmodelled => simp
+      | err e' => simp
+      | panic => simp
+      | unmodelled => simp
+
+/-- Sign1, every signer: an empty answer for the bytes handed over is `ErrEmptySignature`, with
+    the signer having been called on them and nothing stored -/
+theorem sign1_empty_answer (m : Sign1Msg) (ext : Option Bytes) (s : Signer) (tbs : Bytes)
+    (hc : (Sign1.sign m ext s).calls = [tbs]) (hs : s.sign tbs = .ok []) :
+    (Sign1.sign m ext s).out = .err .emptySig ∧ (Sign1.sign m ext s).state.sig = m.sig := by
+  unfold Sign1.sign at hc ⊢
+  by_cases hp : m.payload.isNone
+  · simp [hp] at hc
+  · by_cases hg : blen m.sig > 0
+    · simp [hp, hg] at hc
+    · simp only [hp, hg, if_false, Bool.false_eq_true] at hc ⊢
+      cases hgate : ensureSigningAlgorithm m.h.rawP m.h.p s.alg ext with
+      | ok p' =>
+        simp only [hgate] at hc ⊢
+        cases ht : Sign1.toBeSigned { m with h := { m.h with p := p' } } ext with
+        | ok t =>
+          simp only [ht] at hc ⊢
+          have htt : t = tbs := by
+            cases hsg : s.sign t with
+            | ok sig => by_cases hz : sig.length = 0 <;> simpa [hsg, hz] using hc
+            | err e' => simpa [hsg] using hc
+            | panic => simpa [hsg] using hc
+            | unmodelled => simpa [hsg] using hc
+          subst htt
+          simp [hs]
+        | err e' => simp [ht] at hc
+        | panic => simp [ht] at hc
+        | unmodelled => simp [ht] at hc
+      | err e' => simp [hgate] at hc
+      | panic => simp [hgate] at hc
+      | unmodelled => simp [hgate] at hc
+
+/-- Sign1: success means a non-empty signature is stored -/
+theorem sign1_ok_nonempty (m : Sign1Msg) (ext : Option Bytes) (s : Signer)
+    (h : (Sign1.sign m ext s).out = .ok ()) : blen (Sign1.sign m ext s).state.sig ≠ 0 := by
+  obtain ⟨_, sig, _, _, hne, hst⟩ := sign1_ok_stores_signer_output m ext s h
+  rw [hst]
+  cases sig with
+  | nil => exact absurd rfl hne
+  | cons a r => simp [blen]
 
 /-- the Sign1 / Sign1Untagged helpers return no bytes unless signing succeeded and the result
     carries a non-empty signature -/
@@ -161,7 +234,10 @@ theorem signature_sign_fail_keeps_sig (sg : SigV) (s : Signer) (bprot : Bytes) (
           | ok tbs =>
             simp only [ht] at h ⊢
             cases hsg : s.sign tbs with
-            | ok sig => simp [hsg] at h
+            | ok sig =>
+              by_cases hz : sig.length = 0
+              · simp [hz]
+              · simp [hsg, hz] at h
             | err e' => simp
             | panic => simp
             | unmodelled => simp
@@ -172,6 +248,230 @@ theorem signature_sign_fail_keeps_sig (sg : SigV) (s : Signer) (bprot : Bytes) (
         | panic => simp
         | unmodelled => simp
       · simp [hp, hg, hb]
+
+/-- `Signature.Sign`: when it reports success, the stored signature is what the signer returned
+    for the bytes it was handed, and it is not empty -/
+theorem signature_ok_stores_signer_output (sg : SigV) (s : Signer) (bprot : Bytes)
+    (payload ext : Option Bytes) (h : (Signature.sign sg s bprot payload ext).out = .ok ()) :
+    ∃ tbs sig, (Signature.sign sg s bprot payload ext).calls = [tbs] ∧ s.sign tbs = .ok sig ∧
+      sig ≠ [] ∧ (Signature.sign sg s bprot payload ext).state.sig = some sig := by
+  unfold Signature.sign at h ⊢
+  by_cases hp : payload.isNone
+  · simp [hp] at h
+  · by_cases hg : blen sg.sig > 0
+    · simp [hp, hg] at h
+    · by_cases hb : bodyProtOK bprot
+      · simp only [hp, hg, hb, if_false, Bool.false_eq_true, Bool.not_true] at h ⊢
+        cases hgate : ensureSigningAlgorithm sg.h.rawP sg.h.p s.alg ext with
+        | ok p' =>
+          simp only [hgate] at h ⊢
+          cases ht : Signature.toBeSigned { sg with h := { sg.h with p := p' } } bprot payload ext with
+          | ok tbs =>
+            simp only [ht] at h ⊢
+            cases hsg : s.sign tbs with
+            | ok sig =>
+              simp only [hsg] at h ⊢
+              by_cases hz : sig.length = 0
+              · simp [hz] at h
+              · simp only [hz, if_false]
+                exact ⟨tbs, sig, rfl, hsg, fun hn => hz (by rw [hn]; rfl), rfl⟩
+            | err e' => simp [hsg] at h
+            | panic => simp [hsg] at h
+            | unmodelled => simp [hsg] at h
+          | err e' => simp [ht] at h
+          | panic => simp [ht] at h
+          | unmodelled => simp [ht] at h
+        | err e' => simp [hgate] at h
+        | panic => simp [hgate] at h
+        | unmodelled => simp [hgate] at h
+      · simp [hp, hg, hb] at h
+
+/-- `Signature.Sign`: success means a non-empty signature is stored in the slot -/
+theorem signature_ok_nonempty (sg : SigV) (s : Signer) (bprot : Bytes)
+    (payload ext : Option Bytes) (h : (Signature.sign sg s bprot payload ext).out = .ok ()) :
+    blen (Signature.sign sg s bprot payload ext).state.sig ≠ 0 := by
+  obtain ⟨_, sig, _, _, hne, hst⟩ := signature_ok_stores_signer_output sg s bprot payload ext h
+  rw [hst]
+  cases sig with
+  | nil => exact absurd rfl hne
+  | cons a r => simp [blen]
+
+/-- (repair 9ac6635) `Signature.Sign` with a signer that "succeeds" with no signature bytes never
+    reports success, stores nothing, and — whenever the signer was reached — returns
+    `ErrEmptySignature` -/
+theorem signature_empty_signer_fails (sg : SigV) (s : Signer) (bprot : Bytes)
+    (payload ext : Option Bytes) (hs : ∀ tbs, s.sign tbs = .ok []) :
+    (Signature.sign sg s bprot payload ext).out ≠ .ok () ∧
+    (Signature.sign sg s bprot payload ext).state.sig = sg.sig ∧
+    ((Signature.sign sg s bprot payload ext).calls ≠ [] →
+      (Signature.sign sg s bprot payload ext).out = .err .emptySig) := by
+  have hne : (Signature.sign sg s bprot payload ext).out ≠ .ok () := by
+    intro h
+    obtain ⟨tbs, sig, _, h2, h3, _⟩ := signature_ok_stores_signer_output sg s bprot payload ext h
+    rw [hs tbs] at h2
+    cases h2
+    exact h3 rfl
+  refine ⟨hne, signature_sign_fail_keeps_sig sg s bprot payload ext hne, ?_⟩
+  unfold Signature.sign
+  by_cases hp : payload.isNone
+  · simp [hp]
+  · by_cases hg : blen sg.sig > 0
+    · simp [hp, hg]
+    · by_cases hb : bodyProtOK bprot
+      · simp only [hp, hg, hb, if_false, Bool.false_eq_true, Bool.not_true]
+        cases ensureSigningAlgorithm sg.h.rawP sg.h.p s.alg ext with
+        | ok p' =>
+          simp only []
+          cases Signature.toBeSigned { sg with h := { sg.h with p := p' } } bprot payload ext with
+          | ok tbs => simp [hs tbs]
+          | err e' => simp
+          | panic => simp
+          | unmodelled => simp
+        | err e' => simp
+        | panic => simp
+        | unmodelled => simp
+      · simp [hp, hg, hb]
+
+/-- COSE_Sign loop: when it reports success over as many signers as slots, every slot holds a
+    non-empty signature -/
+theorem signLoop_ok_all_filled (bprot : Bytes) (payload ext : Option Bytes) :
+    ∀ (sgs : List SigV) (ss : List Signer), sgs.length = ss.length →
+      (signLoop bprot payload ext sgs ss).2.1 = .ok () →
+      ∀ sg ∈ (signLoop bprot payload ext sgs ss).1, blen sg.sig ≠ 0
+  | [], _, _, _ => by
+    intro sg hsg
+    unfold signLoop at hsg
+    simp at hsg
+  | _ :: _, [], hl, _ => by simp at hl
+  | sg :: sgs, s :: ss, hl, hok => by
+    unfold signLoop at hok ⊢
+    cases ho : (Signature.sign sg s bprot payload ext).out with
+    | ok u =>
+      cases u
+      simp only [ho] at hok ⊢
+      intro x hx
+      rcases List.mem_cons.mp hx with rfl | hx
+      · exact signature_ok_nonempty sg s bprot payload ext ho
+      · exact signLoop_ok_all_filled bprot payload ext sgs ss (by simpa using hl) hok x hx
+    | err e => simp [ho] at hok
+    | panic => simp [ho] at hok
+    | unmodelled => simp [ho] at hok
+
+/-- COSE_Sign loop, first empty answer (a signer that returns no error and no bytes for slot `i`,
+    the earlier slots having been signed): the loop stops there with `ErrEmptySignature`, that
+    slot holds no signature, the later ones are untouched -/
+theorem signLoop_first_empty_answer (bprot : Bytes) (payload ext : Option Bytes)
+    (sgs : List SigV) (ss : List Signer) (i : Nat) (h1 : i < sgs.length) (h2 : i < ss.length)
+    (hbefore : ∀ j (hj1 : j < sgs.length) (hj2 : j < ss.length), j < i →
+      (Signature.sign sgs[j] ss[j] bprot payload ext).out = .ok ())
+    (hempty : ∀ tbs, ss[i].sign tbs = .ok [])
+    (hreached : (Signature.sign sgs[i] ss[i] bprot payload ext).calls ≠ []) :
+    (signLoop bprot payload ext sgs ss).2.1 = .err .emptySig ∧
+    (Signature.sign sgs[i] ss[i] bprot payload ext).state.sig = sgs[i].sig ∧
+    (signLoop bprot payload ext sgs ss).1.drop (i + 1) = sgs.drop (i + 1) := by
+  obtain ⟨hne, hkeep, herr⟩ := signature_empty_signer_fails sgs[i] ss[i] bprot payload ext hempty
+  obtain ⟨ha, hb⟩ := signLoop_first_failure bprot payload ext sgs ss i h1 h2 hbefore hne
+  exact ⟨by rw [ha, herr hreached], hkeep, hb⟩
+
+/-- `Countersignature.Sign`: success means what the signer returned is stored, and is not empty -/
+theorem csig_ok_stores_signer_output (cs : SigV) (s : Signer) (parent : Parent)
+    (ext : Option Bytes) (h : (Countersignature.sign cs s parent ext).out = .ok ()) :
+    ∃ tbs sig, (Countersignature.sign cs s parent ext).calls = [tbs] ∧ s.sign tbs = .ok sig ∧
+      sig ≠ [] ∧ (Countersignature.sign cs s parent ext).state.sig = some sig := by
+  unfold Countersignature.sign at h ⊢
+  by_cases hg : blen cs.sig > 0
+  · simp [hg] at h
+  · simp only [hg, if_false] at h ⊢
+    cases hgate : ensureSigningAlgorithm cs.h.rawP cs.h.p s.alg ext with
+    | ok p' =>
+      simp only [hgate] at h ⊢
+      cases ht : Countersignature.toBeSigned { cs with h := { cs.h with p := p' } } parent ext with
+      | ok tbs =>
+        simp only [ht] at h ⊢
+        cases hsg : s.sign tbs with
+        | ok sig =>
+          simp only [hsg] at h ⊢
+          by_cases hz : sig.length = 0
+          · simp [hz] at h
+          · simp only [hz, if_false]
+            exact ⟨tbs, sig, rfl, hsg, fun hn => hz (by rw [hn]; rfl), rfl⟩
+        | err e' => simp [hsg] at h
+        | panic => simp [hsg] at h
+        | unmodelled => simp [hsg] at h
+      | err e' => simp [ht] at h
+      | panic => simp [ht] at h
+      | unmodelled => simp [ht] at h
+    | err e' => simp [hgate] at h
+    | panic => simp [hgate] at h
+    | unmodelled => simp [hgate] at h
+
+/-- (repair 9ac6635) `Countersignature.Sign` with a signer that "succeeds" with no signature
+    bytes never reports success, stores nothing, and — whenever the signer was reached — returns
+    `ErrEmptySignature` -/
+theorem csig_empty_signer_fails (cs : SigV) (s : Signer) (parent : Parent) (ext : Option Bytes)
+    (hs : ∀ tbs, s.sign tbs = .ok []) :
+    (Countersignature.sign cs s parent ext).out ≠ .ok () ∧
+    (Countersignature.sign cs s parent ext).state.sig = cs.sig ∧
+    ((Countersignature.sign cs s parent ext).calls ≠ [] →
+      (Countersignature.sign cs s parent ext).out = .err .emptySig) := by
+  unfold Countersignature.sign
+  by_cases hg : blen cs.sig > 0
+  · simp [hg]
+  · simp only [hg, if_false]
+    cases ensureSigningAlgorithm cs.h.rawP cs.h.p s.alg ext with
+    | ok p' =>
+      simp only []
+      cases Countersignature.toBeSigned { cs with h := { cs.h with p := p' } } parent ext with
+      | ok tbs => simp [hs tbs]
+      | err e' => simp
+      | panic => simp
+      | unmodelled => simp
+    | err e' => simp
+    | panic => simp
+    | unmodelled => simp
+
+/-- `Countersign0` never returns an empty countersignature: bytes come back only as the signer's
+    non-empty answer for the bytes it was handed -/
+theorem countersign0_ok_nonempty (s : Signer) (parent : Parent) (ext : Option Bytes) (b : Bytes)
+    (h : (countersign0 s parent ext).1 = .ok b) :
+    b ≠ [] ∧ ∃ tbs, (countersign0 s parent ext).2 = [tbs] ∧ s.sign tbs = .ok b := by
+  unfold countersign0 at h ⊢
+  cases ht : countersignToBeSigned true parent [0x40] ext with
+  | ok tbs =>
+    simp only [ht] at h ⊢
+    cases hsg : s.sign tbs with
+    | ok sig =>
+      simp only [hsg] at h ⊢
+      by_cases hz : sig.length = 0
+      · simp [hz] at h
+      · simp only [hz, if_false, Out.ok.injEq] at h ⊢
+        subst h
+        exact ⟨fun hn => hz (by rw [hn]; rfl), tbs, rfl, hsg⟩
+    | err e => simp [hsg] at h
+    | panic => simp [hsg] at h
+    | unmodelled => simp [hsg] at h
+  | err e => simp [ht] at h
+  | panic => simp [ht] at h
+  | unmodelled => simp [ht] at h
+
+/-- (repair 9ac6635) `Countersign0` with a signer that "succeeds" with no signature bytes returns
+    no bytes, and `ErrEmptySignature` whenever the signer was reached -/
+theorem countersign0_empty_signer_fails (s : Signer) (parent : Parent) (ext : Option Bytes)
+    (hs : ∀ tbs, s.sign tbs = .ok []) :
+    (∀ b, (countersign0 s parent ext).1 ≠ .ok b) ∧
+    ((countersign0 s parent ext).2 ≠ [] → (countersign0 s parent ext).1 = .err .emptySig) := by
+  constructor
+  · intro b h
+    obtain ⟨hne, tbs, _, h2⟩ := countersign0_ok_nonempty s parent ext b h
+    rw [hs tbs] at h2
+    cases h2
+    exact hne rfl
+  · unfold countersign0
+    cases countersignToBeSigned true parent [0x40] ext with
+    | ok tbs => simp [hs tbs]
+    | err e => simp
+    | panic => simp
+    | unmodelled => simp
 
 /-- verifier errors are propagated: whatever the verifier returns for the (content, signature)
     it is handed is the result of Sign1.verify -/
